@@ -19,7 +19,7 @@ LEVEL = "model_checking"
 BOUNDS = {
     "models": "gauss (x~N(0,1), y~N(x,.5)); nonlin (x~N(0,1), y~N(x*x,1)); pair (x1~N(0,1), x2~N(x1,1), y~N(x1+x2,.5)); scan2 (2-step random walk with observations); vec (x~mv_normal_diag length 2)",
     "selections": "the single latent, both latents, one of two latents (the other must stay put), all",
-    "L": "1, 2, 3 (quick: 1, 2; the nonlinear model up to 2)",
+    "L": "1, 2, 3 (quick: 1, 2; the nonlinear model: 1 in quick, up to 2 in thorough)",
     "symbolic": "start values, observed values, step size eps, the momentum draw (uninterpreted function of the key)",
 }
 ASSUMPTIONS = [
@@ -162,8 +162,8 @@ def obligations(tier, seed):
         names = list(ex)
         for sn, (sel, moved) in sels.items():
             for L in Ls:
-                if mn == "nonlin" and L > 2:
-                    continue
+                if mn == "nonlin" and L > (1 if tier == "quick" else 2):
+                    continue  # degree grows as 2^L for the quadratic mean: L=2 takes minutes (thorough only)
                 for safe in ((False, True) if (mn == "gauss" and L == 1) else (False,)):
                     def f(key, vals, eps, gf=gf, args=args, mk=mk, lj=lj, sel=sel, moved=moved, L=L, names=names, safe=safe, stale=False):
                         tr, _ = gf.importance(key, mk(vals), args)
